@@ -692,7 +692,10 @@ class Engine:
         """integer alternatives of v; symbolic leaves are reported as engine limits"""
         out = []
         for gg, x in deep_alts(v):
-            if x is None: s.add_check(gand(g, gg), 'ENGINE-LIMIT symbolic ' + what, 'limit')
+            if x is None:
+                g2 = gand(g, gg)
+                if s.opts.get('feas') and not isinstance(g2, bool) and not s.feasible(g2): continue
+                s.add_check(g2, 'ENGINE-LIMIT symbolic ' + what, 'limit')
             else: out.append((gg, x))
         return out
     def caught_base(s, t):
